@@ -899,7 +899,7 @@ func (x *Exec) loopFrameObligations(fr *frame, head, back *State, lc *LoopContra
 		x.havocSame(fr, &a, &b, m, opts)
 	}
 	for o := range head.mem {
-		if o.Kind == "fresh" || o.Kind == "track" || o.Kind == "ghost" {
+		if o.Kind == "fresh" || o.Kind == "track" {
 			continue
 		}
 		if _, still := back.mem[o]; !still {
